@@ -66,8 +66,8 @@ def linspace_rules(run, F):
                         ['i := self.index', 'self.index AddAssign 1']),
                        (['(self.len <= self.index)'], 'NULL', []))
         else:
-            want = N.T((['(self.index < self.len)'], 'Some(((self.step * i) + self.start))',
-                        ['self.len SubAssign 1', 'i := self.len']),
+            want = N.T((['(self.index < self.len)'], "Some(((self.len' * self.step) + self.start))",
+                        ['self.len SubAssign 1']),     # the leaf is evaluated after the effects
                        (['(self.len <= self.index)'], 'NULL', []))
         ok = t == want
         run.ob('GEN.linspace', fn, 'Linspace::%s element' % fn.name, ok, fn.loc(),
